@@ -183,15 +183,10 @@ Lemma matchers_single (d : N) (e e' : option N) (a b : option N) (x y : option Z
   (node_match [d] (Some (e, [a])) (Some (e', [b])) = true <->
      match a with Some v => v | None => d end = match b with Some v => v | None => d end) /\
   (edge_match [x] [y] = true <-> x = y) /\
-  (edge_match_mtg [x] [y] = true <-> exists o, x = Some o /\ y = Some o).
+  (edge_match_mtg [x] [y] = true <-> x = y).
 Proof.
   split; [|split].
   - simpl. rewrite andb_true_r. apply N.eqb_eq.
   - destruct x, y; simpl; try rewrite andb_true_r; try rewrite Z.eqb_eq; split; intros H; try congruence; try discriminate; auto.
-  - destruct x, y; simpl; try rewrite Z.eqb_eq; split; try discriminate.
-    + intros ->. eauto.
-    + intros (o & E1 & E2). congruence.
-    + intros (o & E1 & E2). discriminate.
-    + intros (o & E1 & E2). discriminate.
-    + intros (o & E1 & E2). discriminate.
+  - destruct x, y; simpl; try rewrite Z.eqb_eq; split; intros H; try congruence; try discriminate; auto.
 Qed.
